@@ -16,6 +16,8 @@ type vxTx struct {
 	started int // 0 = not started, 1 = Start returned nil, 2 = Start returned an error
 	resp    *Message
 	werr    bool // the write of Start failed
+	retried bool
+	failed  *vxCalls // handler of an earlier Start of this ID that returned an error
 }
 
 // vxTerminal: is e one of the permitted terminal events of transaction t?
@@ -78,6 +80,16 @@ func vh_C10_history() {
 					t.started = 2
 					vxReach("start-failed")
 				}
+			} else if t.started == 2 && !t.retried {
+				// the application retries a failed Start with the same ID and a new handler
+				t.retried = true
+				vxAssert(len(t.rec.events) == 0, "the handler of the failed Start has not been invoked")
+				t.failed = t.rec
+				t.rec = &vxCalls{}
+				if env.c.Start(msg, t.rec.handle) == nil {
+					t.started = 1
+					vxReach("retry-started")
+				}
 			} else if t.started == 1 && len(t.rec.events) == 0 {
 				vxAssert(env.c.Start(msg, dup.handle) != nil, "a second Start with an in-flight ID fails")
 				vxReach("duplicate-start")
@@ -108,6 +120,7 @@ func vh_C10_history() {
 		}
 		for j := range txs {
 			vxAssert(len(txs[j].rec.events) <= 1, "no handler is ever invoked twice")
+			vxAssert(txs[j].failed == nil || len(txs[j].failed.events) == 0, "the handler of a Start that returned an error is never invoked")
 		}
 		vxAssert(len(dup.events) == 0, "the handler of a failed Start is never invoked")
 	}
@@ -125,6 +138,7 @@ func vh_C10_history() {
 		default:
 			vxAssert(len(t.rec.events) == 0, "no handler call without a successful Start")
 		}
+		vxAssert(t.failed == nil || len(t.failed.events) == 0, "the handler of a Start that returned an error is never invoked (final)")
 	}
 	vxAssert(len(dup.events) == 0, "the handler of a failed Start is never invoked (final)")
 }
